@@ -1,39 +1,99 @@
 (* eng_policy.ml — line driver for the E-POLICY models.
    engine exe: modelrun_policy
-   case:   <policy> (a K C | m K C | r K | e N | c)*
-   output: one token group per call, joined by " ; " *)
+   case:   <policy>[:<capacity>] (a K C | m K C | r K | e N | c)*  [ || <implementation output> ]
+   output: one token group per call, joined by " ; "
+
+   Lru/Fifo/Sieve/Clock/Slru/Arc are functional: the model predicts the output.
+   Random and TinyLfu are relational: their RNG / frequency sketch are abstract
+   components of the model, so the case line carries the implementation's output
+   after "||"; the driver instantiates the abstract component with the replay
+   instance built from that output (the victims the implementation chose / the
+   candidates it rejected) and prints the model's output under that instance.
+   The check then diffs it against the implementation's like any other policy:
+   equal iff the implementation's behaviour is one the model allows. *)
 open Model_policy
 open Conv_policy
 
-let policy_of = function
-  | "lru" -> lruP
-  | "fifo" -> fifoP
-  | "sieve" -> sieveP
-  | "clock" -> clockP
-  | s -> failwith ("unknown policy " ^ s)
+let num s = n_of_int (int_of_string s)
 
 let rec parse_calls = function
   | [] -> []
-  | "a" :: k :: c :: r -> Access (n_of_int (int_of_string k), n_of_int (int_of_string c)) :: parse_calls r
-  | "m" :: k :: c :: r -> Admit (n_of_int (int_of_string k), n_of_int (int_of_string c)) :: parse_calls r
-  | "r" :: k :: r -> Remove (n_of_int (int_of_string k)) :: parse_calls r
-  | "e" :: n :: r -> Evict (n_of_int (int_of_string n)) :: parse_calls r
+  | "a" :: k :: c :: r -> Access (num k, num c) :: parse_calls r
+  | "m" :: k :: c :: r -> Admit (num k, num c) :: parse_calls r
+  | "r" :: k :: r -> Remove (num k) :: parse_calls r
+  | "e" :: n :: r -> Evict (num n) :: parse_calls r
   | "c" :: r -> Clear :: parse_calls r
   | t :: _ -> failwith ("bad call token " ^ t)
+
+let show_keys vs = String.concat "," (List.map (fun k -> string_of_int (int_of_n k)) vs)
 
 let show_out = function
   | ODone -> "ok"
   | OAdmit -> "admit"
   | OReject -> "reject"
-  | OAdmitEvict vs -> "admitevict " ^ String.concat "," (List.map (fun k -> string_of_int (int_of_n k)) vs)
-  | OVictims (vs, c) ->
-      "v [" ^ String.concat "," (List.map (fun k -> string_of_int (int_of_n k)) vs) ^ "] " ^ string_of_int (int_of_n c)
+  | OAdmitEvict vs -> "admitevict " ^ show_keys vs
+  | OVictims (vs, c) -> "v [" ^ show_keys vs ^ "] " ^ string_of_int (int_of_n c)
+
+(* split the token list at "||" *)
+let rec split_bar acc = function
+  | [] -> (List.rev acc, None)
+  | "||" :: r -> (List.rev acc, Some r)
+  | t :: r -> split_bar (t :: acc) r
+
+(* implementation output groups: tokens separated by ";" *)
+let groups toks =
+  let rec go cur acc = function
+    | [] -> List.rev (List.rev cur :: acc)
+    | ";" :: r -> go [] (List.rev cur :: acc) r
+    | t :: r -> go (t :: cur) acc r in
+  match toks with [] -> [] | _ -> go [] [] toks
+
+let keys_of s =
+  if s = "" then [] else List.map num (String.split_on_char ',' s)
+
+(* Random: every victim of every evict, in order *)
+let random_choices impl =
+  List.concat_map (function
+      | ["v"; ks; _] ->
+          let n = String.length ks in
+          if n >= 2 then keys_of (String.sub ks 1 (n - 2)) else []
+      | _ -> []) (groups impl)
+
+(* TinyLfu: per on_access/on_admit call (those increment the sketch), the rejected candidates *)
+let tinylfu_rejects calls impl =
+  let rec go cs gs = match cs, gs with
+    | [], _ -> []
+    | (Access _ | Admit _) :: cr, g :: gr ->
+        (match g with ["admitevict"; ks] -> keys_of ks | _ -> []) :: go cr gr
+    | (Access _ | Admit _) :: cr, [] -> [] :: go cr []
+    | _ :: cr, _ :: gr -> go cr gr
+    | _ :: cr, [] -> go cr [] in
+  go calls (groups impl)
+
+let cap_of name =
+  match String.split_on_char ':' name with
+  | [p] -> (p, N0)
+  | [p; c] -> (p, num c)
+  | _ -> failwith ("bad policy header " ^ name)
 
 let run (toks : string list) : string =
   match toks with
   | name :: rest ->
-      let p = policy_of name in
-      let (_, outs) = prun p p.pinit (parse_calls rest) in
+      let (calls_t, impl) = split_bar [] rest in
+      let calls = parse_calls calls_t in
+      let (pn, cap) = cap_of name in
+      let impl_toks = match impl with Some i -> i | None -> [] in
+      let p = match pn with
+        | "lru" -> lruP
+        | "fifo" -> fifoP
+        | "sieve" -> sieveP
+        | "clock" -> clockP
+        | "slru" -> slruP cap
+        | "arc" -> arcP cap
+        | "random" -> randomReplayP (random_choices impl_toks)
+        | "tinylfu" -> tinyLfuReplayP (tinylfu_rejects calls impl_toks) cap
+        | s -> failwith ("unknown policy " ^ s) in
+      let (_, outs) = prun p p.pinit calls in
       String.concat " ; " (List.map show_out outs)
   | [] -> failwith "empty policy case"
 
